@@ -366,7 +366,11 @@ func (ex *Exec) convert(from, to types.Type, v Value) Value {
 		if isString(tu) {
 			// string(rune)
 			if !x.IsConst() {
-				ex.unsupported("symbolic rune to string")
+				if !ex.Branch(term.Ult(x, term.Const(x.W, 0x80))) {
+					ex.unsupported("symbolic non-ASCII rune to string")
+				}
+				arr := &ByteArr{size: u64(1), cells: []*term.T{term.Extract(x, 7, 0)}}
+				return Str{sym: true, b: BSlice{arr: arr, off: zero64, len: u64(1), cap: u64(1)}}
 			}
 			return Str{s: string(rune(x.Signed()))}
 		}
@@ -646,13 +650,10 @@ func (ex *Exec) next(x *ssa.Next, it *Iter) Value {
 		if uint64(it.pos) >= n {
 			return Tuple{term.False, i64(0), term.Const(32, 0)}
 		}
-		b := s.b.at(u64(uint64(it.pos)))
-		if !ex.Branch(term.Ult(b, term.Const(8, 0x80))) {
-			ex.unsupported("range over symbolic non-ASCII string")
-		}
+		r, w := ex.decodeRuneSym(s.b, uint64(it.pos), n)
 		p := it.pos
-		it.pos++
-		return Tuple{term.True, i64(int64(p)), term.ZExt(b, 32)}
+		it.pos += w
+		return Tuple{term.True, i64(int64(p)), r}
 	}
 	for it.pos < len(it.keys) {
 		e := it.keys[it.pos]
@@ -1074,4 +1075,51 @@ func (ex *Exec) runPendingGoroutines() bool {
 		ran = true
 	}
 	return ran
+}
+
+// decodeRuneSym decodes one UTF-8 sequence at pos of a (partly) symbolic string of
+// concrete length n, forking on the byte classes exactly as utf8.DecodeRune does.
+func (ex *Exec) decodeRuneSym(b BSlice, pos, n uint64) (*term.T, int) {
+	at := func(i uint64) *term.T { return b.at(u64(pos + i)) }
+	in := func(x *term.T, lo, hi uint64) bool {
+		return ex.Branch(term.BAnd(term.Uge(x, term.Const(8, lo)), term.Ule(x, term.Const(8, hi))))
+	}
+	runeErr := term.Const(32, 0xFFFD)
+	b0 := at(0)
+	if ex.Branch(term.Ult(b0, term.Const(8, 0x80))) {
+		return term.ZExt(b0, 32), 1
+	}
+	z := func(x *term.T, mask uint64) *term.T { return term.ZExt(term.And(x, term.Const(8, mask)), 32) }
+	sh := func(x *term.T, k uint64) *term.T { return term.Shl(x, term.Const(32, k)) }
+	if in(b0, 0xC2, 0xDF) {
+		if pos+1 < n && in(at(1), 0x80, 0xBF) {
+			return term.Or(sh(z(b0, 0x1f), 6), z(at(1), 0x3f)), 2
+		}
+		return runeErr, 1
+	}
+	if in(b0, 0xE0, 0xEF) {
+		lo, hi := uint64(0x80), uint64(0xBF)
+		if ex.Branch(term.Eq(b0, term.Const(8, 0xE0))) {
+			lo = 0xA0
+		} else if ex.Branch(term.Eq(b0, term.Const(8, 0xED))) {
+			hi = 0x9F
+		}
+		if pos+2 < n && in(at(1), lo, hi) && in(at(2), 0x80, 0xBF) {
+			return term.Or(term.Or(sh(z(b0, 0x0f), 12), sh(z(at(1), 0x3f), 6)), z(at(2), 0x3f)), 3
+		}
+		return runeErr, 1
+	}
+	if in(b0, 0xF0, 0xF4) {
+		lo, hi := uint64(0x80), uint64(0xBF)
+		if ex.Branch(term.Eq(b0, term.Const(8, 0xF0))) {
+			lo = 0x90
+		} else if ex.Branch(term.Eq(b0, term.Const(8, 0xF4))) {
+			hi = 0x8F
+		}
+		if pos+3 < n && in(at(1), lo, hi) && in(at(2), 0x80, 0xBF) && in(at(3), 0x80, 0xBF) {
+			return term.Or(term.Or(term.Or(sh(z(b0, 0x07), 18), sh(z(at(1), 0x3f), 12)), sh(z(at(2), 0x3f), 6)), z(at(3), 0x3f)), 4
+		}
+		return runeErr, 1
+	}
+	return runeErr, 1
 }
